@@ -84,7 +84,7 @@ EXTRA = {
  "C14": " The genesis part also offers documents with an APPENDED all-zero row (basket balance, balance, supply) that names a batch which does not exist: such a row changes no sum, so only the reference check can refuse it.",
  "C15": " A small scenario over 64- and 33-byte digests that agree on their first 40 bytes is included.",
  "C16": " A small scenario over 64- and 33-byte digests that agree on their first 40 bytes is included.",
- "C17": " The deprecated aggregate Params query is compared part by part with the stored singletons and tables, the alphabet contains the governance messages that change them, and a seed imported from a genesis document carries absent zero amounts, a project whose id is not the prefix of its batches' denoms and legacy data rows (by-hash queries are not asked for content hashes that fail the stateless validation).",
+ "C17": " The deprecated aggregate Params query is compared part by part with the stored singletons and tables, the alphabet contains the governance messages that change them, and a seed imported from a genesis document carries absent zero amounts, a project whose id is not the prefix of its batches' denoms and legacy data rows (by-hash queries are not asked for content hashes that fail the stateless validation). A seed with 101 allowed classes of one basket, 101 class creators, issuers, allowed denoms and bridge chains exercises every un-paginated sub-list and list beyond the default page limit of 100.",
  "C18": " A sub-product covers the bridge-chain allowlist: names in several spellings x {governance message, genesis}; on every accepted configuration Bridge must succeed with the target as configured and as listed, an unlisted target must fail, and removal by the configured spelling must empty the list.",
  "C19": " On every state of the Engine A part no stored balance, supply, basket balance or order quantity is negative, including the histories of a genesis whose open orders exceed the seller's escrow.",
 }
